@@ -112,6 +112,16 @@ class ArraySlice(ctypes.Structure):
     ]
 
 
+def check_fits(struct, **values):
+    """ctypes silently truncates integers that do not fit a field.
+    Raise instead, so that an unrepresentable operand is never encoded as another value."""
+    for name, value in values.items():
+        if isinstance(value, int) and getattr(struct, name) != value:
+            raise ValueError(
+                f"value {value} does not fit in field '{name}' of {struct.__class__.__name__}"
+            )
+
+
 class Command(ctypes.Structure):
     _pack_ = 1
     _fields_ = [
@@ -125,6 +135,7 @@ class Command(ctypes.Structure):
             raise TypeError(
                 f"command {self.__class__.__name__} could not be created, since: {err}"
             )
+        check_fits(self, **kwargs)
 
 
 def add_padding(fields):
